@@ -6,7 +6,7 @@ why = sys.argv[7] if len(sys.argv) > 7 else ""
 d = tempfile.mkdtemp(prefix="thv-stack.", dir="/tmp")
 try:
     subprocess.run(["rsync", "-a", "--exclude", "target", "--exclude", ".git", "/repo/", d + "/a/"], check=True)
-    subprocess.run(["patch", "-p1", "-s", "--no-backup-if-mismatch", "-i", "/verif/refactors/%s/patch.diff" % base], cwd=d + "/a", check=True)
+    subprocess.run(["patch", "-p1", "-s", "-E", "--no-backup-if-mismatch", "-i", "/verif/refactors/%s/patch.diff" % base], cwd=d + "/a", check=True)
     shutil.copytree(d + "/a", d + "/b")
     f = os.path.join(d, "b", path)
     s = open(f).read()
